@@ -10,9 +10,9 @@ VOCAB_TYPES = ("message::ZmqMessage::",)
 
 
 def default_inline(f, allow_async=False):
-    """Virtual inlining policy: crate-private, synchronous, inherent/free helper functions are looked through, so that extracting
-    or merging a private helper does not move an anchor out of sight. Public functions, trait-impl methods (interface
-    points that rules name) and listed read-only accessors stay opaque."""
+    """Virtual inlining policy: crate-private, synchronous, inherent/free helper functions are looked through - whatever they are
+    called (`get`, `len` .. of a private wrapper type too) - so that extracting or merging a private helper does not move an anchor
+    out of sight. Public functions and trait-impl methods (interface points that rules name) stay opaque."""
     from .sym import PURE_NAMES
 
     def pred(fn):
@@ -25,7 +25,7 @@ def default_inline(f, allow_async=False):
             return False
         if b.j.get("impl_trait"):
             return False
-        if fn["name"] in PURE_NAMES or any(v in path for v in VOCAB_TYPES):
+        if any(v in path for v in VOCAB_TYPES):
             return False
         sig = f.fns.get(path)
         if sig is None or (sig.get("is_async") and not allow_async):
